@@ -6,8 +6,9 @@ package standard
 // whose block is auctioned to the blockauctioneer.Results and the bid BuilderBid serves.  Everything on that path
 // is the real code, wired as main.go wires it:
 //
-//	execution configuration V2 (parsed from a generated document with blockrelay.UnmarshalJSON: proposer-specific
-//	  relays, min_value on the proposer or the relay tier, public_key, grace)  ->  blockrelay/standard.Service
+//	execution configuration V2 or V1 (parsed from a generated document with blockrelay.UnmarshalJSON; V2: proposer-
+//	  specific relays, min_value on the proposer or the relay tier, public_key, grace; V1: relay addresses and one
+//	  grace period per proposer)  ->  blockrelay/standard.Service
 //	  (AuctionBlock, bid cache, BuilderBid)  ->  builderbid/best or builderbid/deadline (handed to the service
 //	  itself, no wrapper; the service passes the builder catalogue it was created with)  ->  util.FetchBuilderClient
 //	  (the process-wide client cache)  ->  go-builder-client HTTP client (parses the relay's public key from the
@@ -46,10 +47,14 @@ type c09Wired struct {
 	order   []phase0.BLSPubKey
 }
 
+// close shuts the relay servers down without waiting for them (Close waits for outstanding requests; a request
+// of an abandoned call must not hold up the batch).
 func (w *c09Wired) close() {
 	for _, srv := range w.servers {
-		srv.CloseClientConnections()
-		srv.Close()
+		go func(srv *httptest.Server) {
+			srv.CloseClientConnections()
+			srv.Close()
+		}(srv)
 	}
 }
 
@@ -94,8 +99,9 @@ func c09Wei(v int64) string {
 }
 
 // installConfig makes the relay configurations of auction au the execution configuration of its validator: a new
-// V2 document (what a refresh of the execution configuration yields) with a proposer-specific section for every
-// validator that has been auctioned on the instance, parsed by the real code and put in place of the current one.
+// document (what a refresh of the execution configuration yields; version 1 or version 2 throughout a history, the
+// two implementations of ProposerConfig) with a proposer-specific section for every validator that has been
+// auctioned on the instance, parsed by the real code and put in place of the current one.
 func (in *c09Instance) installConfig(au *c09Auction) chan struct{} {
 	w := in.wiredState
 	w.mu.Lock()
@@ -105,6 +111,67 @@ func (in *c09Instance) installConfig(au *c09Auction) chan struct{} {
 	}
 	w.current[au.key.pubkey] = au
 
+	var data []byte
+	var err error
+	if in.cfgv == 1 {
+		data, err = in.configV1()
+	} else {
+		data, err = in.configV2()
+	}
+	if err != nil {
+		panic(fmt.Sprintf("c09: execution configuration document: %v", err))
+	}
+	real, err := blockrelay.UnmarshalJSON(data)
+	if err != nil {
+		panic(fmt.Sprintf("c09: execution configuration document rejected: %v\n%s", err, data))
+	}
+	ch := make(chan struct{}, 1)
+	tap := &c09CfgTap{real: real, fetched: map[phase0.BLSPubKey]chan struct{}{au.key.pubkey: ch}}
+	in.svc.executionConfigMu.Lock()
+	in.svc.executionConfig = tap
+	in.svc.executionConfigMu.Unlock()
+	return ch
+}
+
+// configV1 writes the configurations in force as an execution configuration of version 1 (the other implementation
+// of ProposerConfig, services/blockrelay/v1): per proposer the relay addresses and one grace period; no minimum
+// values, no public keys - the scenario generator only produces such configurations for these histories.
+func (in *c09Instance) configV1() ([]byte, error) {
+	w := in.wiredState
+	type builderDoc struct {
+		Enabled bool     `json:"enabled"`
+		Grace   string   `json:"grace,omitempty"`
+		Relays  []string `json:"relays,omitempty"`
+	}
+	type proposerDoc struct {
+		FeeRecipient string      `json:"fee_recipient"`
+		Builder      *builderDoc `json:"builder"`
+	}
+	const feeRecipient = "0x0100000000000000000000000000000000000000"
+	doc := struct {
+		ProposerConfig map[string]*proposerDoc `json:"proposer_config"`
+		DefaultConfig  *proposerDoc            `json:"default_config"`
+	}{ProposerConfig: map[string]*proposerDoc{}, DefaultConfig: &proposerDoc{FeeRecipient: feeRecipient, Builder: &builderDoc{}}}
+	for _, pubkey := range w.order {
+		a := w.current[pubkey]
+		bd := &builderDoc{Enabled: true}
+		for i, c := range a.cfg {
+			if c.Min != 0 || c.Key != "none" || c.Grace != a.cfg[0].Grace {
+				return nil, fmt.Errorf("auction %d: relay configuration %+v cannot be written in version 1", a.i, c)
+			}
+			bd.Relays = append(bd.Relays, in.addrs[i][c.Sp])
+		}
+		if a.cfg[0].Grace > 0 {
+			bd.Grace = strconv.FormatInt(c09GraceDur.Milliseconds(), 10)
+		}
+		doc.ProposerConfig[fmt.Sprintf("%#x", pubkey[:])] = &proposerDoc{FeeRecipient: feeRecipient, Builder: bd}
+	}
+	return json.Marshal(&doc)
+}
+
+// configV2 writes the configurations in force as an execution configuration of version 2.
+func (in *c09Instance) configV2() ([]byte, error) {
+	w := in.wiredState
 	type relayDoc struct {
 		PublicKey string `json:"public_key,omitempty"`
 		Grace     string `json:"grace,omitempty"`
@@ -143,20 +210,7 @@ func (in *c09Instance) installConfig(au *c09Auction) chan struct{} {
 		}
 		doc.Proposers = append(doc.Proposers, pd)
 	}
-	data, err := json.Marshal(&doc)
-	if err != nil {
-		panic(fmt.Sprintf("c09: execution configuration document: %v", err))
-	}
-	real, err := blockrelay.UnmarshalJSON(data)
-	if err != nil {
-		panic(fmt.Sprintf("c09: execution configuration document rejected: %v\n%s", err, data))
-	}
-	ch := make(chan struct{}, 1)
-	tap := &c09CfgTap{real: real, fetched: map[phase0.BLSPubKey]chan struct{}{au.key.pubkey: ch}}
-	in.svc.executionConfigMu.Lock()
-	in.svc.executionConfig = tap
-	in.svc.executionConfigMu.Unlock()
-	return ch
+	return json.Marshal(&doc)
 }
 
 // relayHandler is the relay server at location rid.
